@@ -147,9 +147,82 @@ class _Rewriter(ast.NodeTransformer):
         self.log: List[str] = []
         self._fresh = 0
         self.namedtuples = namedtuples or {}        # class name -> field names in order (typing.NamedTuple classes of the module)
+        self.dict_locals: Set[str] = set()           # names of the current function known to hold a dict (a **kwargs parameter, or
+                                                     # every assignment of the name is a dict display / dict(..) call / dict union)
+
+    def _enter_function(self, node):  # type: ignore[no-untyped-def]
+        saved = self.dict_locals
+        names: Set[str] = set()
+        a = node.args
+        if a.kwarg is not None:
+            names.add(a.kwarg.arg)
+        assigned: Dict[str, List[ast.AST]] = {}
+        for x in ast.walk(node):
+            if isinstance(x, (ast.Assign, ast.AnnAssign)) and getattr(x, 'value', None) is not None:
+                for t in (x.targets if isinstance(x, ast.Assign) else [x.target]):
+                    if isinstance(t, ast.Name):
+                        assigned.setdefault(t.id, []).append(x.value)
+                    else:
+                        for y in ast.walk(t):
+                            if isinstance(y, ast.Name):
+                                assigned.setdefault(y.id, []).append(ast.Constant(value=None))
+            elif isinstance(x, (ast.For, ast.AsyncFor, ast.comprehension)):
+                for y in ast.walk(x.target):
+                    if isinstance(y, ast.Name):
+                        assigned.setdefault(y.id, []).append(ast.Constant(value=None))
+            elif isinstance(x, ast.NamedExpr):
+                assigned.setdefault(x.target.id, []).append(ast.Constant(value=None))
+            elif isinstance(x, (ast.With, ast.AsyncWith)):
+                for it_ in x.items:
+                    if it_.optional_vars is not None:
+                        for y in ast.walk(it_.optional_vars):
+                            if isinstance(y, ast.Name):
+                                assigned.setdefault(y.id, []).append(ast.Constant(value=None))
+        params = {p.arg for p in list(a.posonlyargs) + list(a.args) + list(a.kwonlyargs)} | ({a.vararg.arg} if a.vararg else set())
+        for nm, vs in assigned.items():
+            if nm in params:
+                continue
+            if all(isinstance(v, (ast.Dict, ast.DictComp)) or isinstance(v, ast.Call) and dotted(v.func) == 'dict' or
+                   isinstance(v, ast.BinOp) and isinstance(v.op, ast.BitOr) and (isinstance(v.left, ast.Dict) or isinstance(v.right, ast.Dict))
+                   for v in vs) and not (a.kwarg is not None and nm == a.kwarg.arg and False):
+                names.add(nm)
+        # an AugAssign `d |= ..` keeps a dict a dict
+        self.dict_locals = names
+        return saved
+
+    def visit_FunctionDef(self, node: ast.FunctionDef) -> ast.AST:
+        saved = self._enter_function(node)
+        self.generic_visit(node)
+        self.dict_locals = saved
+        return node
+
+    def visit_AsyncFunctionDef(self, node: ast.AsyncFunctionDef) -> ast.AST:
+        saved = self._enter_function(node)
+        self.generic_visit(node)
+        self.dict_locals = saved
+        return node
+
+    def visit_AugAssign(self, node: ast.AugAssign) -> ast.AST:
+        self.generic_visit(node)
+        # DU: d |= {k: v, ..}  (d a local dict)  ->  d.update({k: v, ..})
+        if isinstance(node.op, ast.BitOr) and isinstance(node.target, ast.Name) and node.target.id in self.dict_locals and \
+                isinstance(node.value, ast.Dict) and all(k is not None for k in node.value.keys):
+            self._hit('DU dict-ior', node)
+            if all(isinstance(k, ast.Constant) and isinstance(k.value, str) and k.value.isidentifier() for k in node.value.keys):
+                call = ast.Call(func=ast.Attribute(value=ast.Name(id=node.target.id, ctx=ast.Load()), attr='update', ctx=ast.Load()), args=[],
+                                keywords=[ast.keyword(arg=k.value, value=v) for k, v in zip(node.value.keys, node.value.values)])     # type: ignore[union-attr]
+            else:
+                call = ast.Call(func=ast.Attribute(value=ast.Name(id=node.target.id, ctx=ast.Load()), attr='update', ctx=ast.Load()), args=[node.value], keywords=[])
+            return _loc(ast.Expr(value=call), node)
+        return node
 
     def visit_Assign(self, node: ast.Assign) -> ast.AST:
         self.generic_visit(node)
+        rc = self._reduce_call(node.value)
+        if rc is not None and len(node.targets) == 1 and isinstance(node.targets[0], ast.Name) and \
+                not any(isinstance(x, ast.Name) and x.id == node.targets[0].id for a in rc.args for x in ast.walk(a)):
+            self._hit('RD reduce', node)
+            return self._reduce_loop(rc, node.targets[0].id, node)
         # NT: `a, b = Pair(x=X, y=Y)` with Pair a typing.NamedTuple of the module: the tuple is unpacked at once, so this is
         # `a, b = (X, Y)` (arguments pure, or already in field order)
         if len(node.targets) == 1 and isinstance(node.targets[0], (ast.Tuple, ast.List)) and isinstance(node.value, ast.Call) and \
@@ -199,6 +272,49 @@ class _Rewriter(ast.NodeTransformer):
             node.args = new_args
             self._hit('C splat', node)
         # O: operator object applied
+        # U: isinstance(x, A | B) -> isinstance(x, (A, B))   (A, B class references: types.UnionType checks the same classes in order)
+        if dotted(f) in ('isinstance', 'issubclass') and len(node.args) == 2 and not node.keywords and isinstance(node.args[1], ast.BinOp) and \
+                isinstance(node.args[1].op, ast.BitOr):
+            parts: List[ast.expr] = []
+
+            def flat(e: ast.expr) -> bool:
+                if isinstance(e, ast.BinOp) and isinstance(e.op, ast.BitOr):
+                    return flat(e.left) and flat(e.right)
+                if _ref(e) and not (isinstance(e, ast.Constant)):
+                    parts.append(e)
+                    return True
+                return False
+            if flat(node.args[1]):
+                self._hit('U isinstance-union', node)
+                node.args[1] = _loc(ast.Tuple(elts=parts, ctx=ast.Load()), node.args[1])
+        # MP: map(F, X, repeat(c), ...) -> (F(e, c, ...) for e in X) ; partial(F, a, k=v)(b) -> F(a, b, k=v)
+        dmap = dotted(f)
+        if dmap == 'map' and len(node.args) >= 3 and not node.keywords and _ref(node.args[0]) and \
+                all(isinstance(a, ast.Call) and (dotted(a.func) or '').rsplit('.', 1)[-1] == 'repeat' and len(a.args) == 1 and not a.keywords
+                    and (_ref(a.args[0]) or isinstance(a.args[0], ast.Constant)) for a in node.args[2:]):
+            self._fresh += 1
+            v = f'_item{self._fresh}'
+            call = ast.Call(func=node.args[0], args=[ast.Name(id=v, ctx=ast.Load())] + [copy.deepcopy(a.args[0]) for a in node.args[2:]], keywords=[])
+            gen = ast.GeneratorExp(elt=call, generators=[ast.comprehension(target=ast.Name(id=v, ctx=ast.Store()), iter=node.args[1], ifs=[], is_async=0)])
+            self._hit('MP map-repeat', node)
+            return _loc(gen, node)
+        if dmap == 'map' and len(node.args) == 2 and not node.keywords and isinstance(node.args[0], ast.Call) and \
+                (dotted(node.args[0].func) or '').rsplit('.', 1)[-1] == 'partial' and node.args[0].args and _ref(node.args[0].args[0]) and \
+                not any(isinstance(a, ast.Starred) for a in node.args[0].args) and not any(k.arg is None for k in node.args[0].keywords) and \
+                all(_pure(a) for a in node.args[0].args[1:]) and all(_pure(k.value) for k in node.args[0].keywords):
+            pc = node.args[0]
+            self._fresh += 1
+            v = f'_item{self._fresh}'
+            call = ast.Call(func=pc.args[0], args=list(pc.args[1:]) + [ast.Name(id=v, ctx=ast.Load())], keywords=list(pc.keywords))
+            gen = ast.GeneratorExp(elt=call, generators=[ast.comprehension(target=ast.Name(id=v, ctx=ast.Store()), iter=node.args[1], ifs=[], is_async=0)])
+            self._hit('MP map-partial', node)
+            return _loc(gen, node)
+        if isinstance(f, ast.Call) and (dotted(f.func) or '').rsplit('.', 1)[-1] == 'partial' and (dotted(f.func) or '').split('.')[0] in ('ft', 'functools', 'partial') \
+                and f.args and _ref(f.args[0]) and not any(isinstance(a, ast.Starred) for a in f.args + node.args) and \
+                not any(k.arg is None for k in f.keywords + node.keywords) and \
+                not ({k.arg for k in f.keywords} & {k.arg for k in node.keywords}) and all(_pure(a) for a in f.args[1:]) and all(_pure(k.value) for k in f.keywords):
+            self._hit('MP partial-call', node)
+            return self.visit(_loc(ast.Call(func=f.args[0], args=list(f.args[1:]) + list(node.args), keywords=list(f.keywords) + list(node.keywords)), node))
         ob = _opobj(f)
         if ob is not None and len(node.args) == 1 and not node.keywords and not isinstance(node.args[0], ast.Starred):
             kind, mk = ob
@@ -516,6 +632,22 @@ class _Rewriter(ast.NodeTransformer):
     # -- operators -------------------------------------------------------------------------------
     def visit_BinOp(self, node: ast.BinOp) -> ast.AST:
         self.generic_visit(node)
+        # DU: {..} | {..}  /  {..} | kwargs  /  d | {..}  (d a local known to be a dict) -> one display with ** parts
+        if isinstance(node.op, ast.BitOr) and (isinstance(node.left, ast.Dict) or isinstance(node.right, ast.Dict)):
+            def known_dict(e: ast.expr) -> bool:
+                return isinstance(e, ast.Dict) or isinstance(e, ast.Name) and e.id in self.dict_locals
+            if known_dict(node.left) and known_dict(node.right):
+                keys: List[Optional[ast.expr]] = []
+                vals: List[ast.expr] = []
+                for side in (node.left, node.right):
+                    if isinstance(side, ast.Dict):
+                        keys += side.keys
+                        vals += side.values
+                    else:
+                        keys.append(None)
+                        vals.append(side)
+                self._hit('DU dict-union', node)
+                return _loc(ast.Dict(keys=keys, values=vals), node)
         if isinstance(node.op, ast.Add) and isinstance(node.left, ast.Constant) and isinstance(node.right, ast.Constant) and \
                 type(node.left.value) is type(node.right.value) and isinstance(node.left.value, (str, int, tuple)) and \
                 not isinstance(node.left.value, bool):
@@ -594,6 +726,10 @@ class _Rewriter(ast.NodeTransformer):
                     positive = b.value == isinstance(op, ast.Eq)
                     self._hit('E bool-eq', node)
                     return self.visit(_loc(a if positive else _not(a), node))
+        if isinstance(op, (ast.Is, ast.IsNot)) and isinstance(right, ast.Constant) and isinstance(right.value, bool) and _boolean_valued(left):
+            positive = right.value == isinstance(op, ast.Is)
+            self._hit('E bool-is', node)
+            return self.visit(_loc(left if positive else _not(left), node))
         if isinstance(op, (ast.In, ast.NotIn)) and isinstance(right, ast.Dict) and self._const_dict(right):
             self._hit('D in-dict', node)
             node.comparators = [_loc(ast.Tuple(elts=list(right.keys), ctx=ast.Load()), right)]     # type: ignore[arg-type]
@@ -623,10 +759,6 @@ class _Rewriter(ast.NodeTransformer):
         return self._for_else(node)
 
     def visit_AsyncFor(self, node: ast.AsyncFor) -> ast.AST:
-        self.generic_visit(node)
-        return self._for_else(node)
-
-    def visit_While(self, node: ast.While) -> ast.AST:
         self.generic_visit(node)
         return self._for_else(node)
 
@@ -670,6 +802,20 @@ class _Rewriter(ast.NodeTransformer):
                 nm = pat.patterns[0].name
                 return (test, [(nm, S())] if nm else [])
             return None
+        if isinstance(pat, ast.MatchSequence) and isinstance(subj, ast.Tuple) and len(pat.patterns) == len(subj.elts) and \
+                not any(isinstance(p_, ast.MatchStar) for p_ in pat.patterns) and all(_pure(e) for e in subj.elts):
+            tests: List[ast.expr] = []
+            binds: List[Tuple[str, ast.expr]] = []
+            for p_, e in zip(pat.patterns, subj.elts):
+                r = self._pattern_test(p_, e)
+                if r is None:
+                    return None
+                if r[0] is not None:
+                    tests.append(r[0])
+                binds += r[1]
+            if not tests:
+                return (None, binds)
+            return (tests[0] if len(tests) == 1 else ast.BoolOp(op=ast.And(), values=tests), binds)
         if isinstance(pat, ast.MatchOr):
             parts = [self._pattern_test(p_, subj) for p_ in pat.patterns]
             if any(p_ is None or p_[1] for p_ in parts):
@@ -691,8 +837,16 @@ class _Rewriter(ast.NodeTransformer):
         self.generic_visit(node)
         subj = node.subject
         pre: List[ast.stmt] = []
-        if not (isinstance(subj, ast.Name) or _ref(subj) and _pure(subj)):
-            return node
+        if isinstance(subj, ast.Tuple) and all(_pure(e) for e in subj.elts) and \
+                all(isinstance(c.pattern, ast.MatchSequence) or isinstance(c.pattern, ast.MatchAs) and c.pattern.pattern is None and c.pattern.name is None
+                    for c in node.cases):
+            pass        # a tuple display of pure expressions matched against sequence patterns: tested element by element
+        elif not isinstance(subj, ast.Name):
+            # the subject is evaluated once: hold it in a fresh local
+            self._fresh += 1
+            tmp = f'_match_subject{self._fresh}'
+            pre.append(ast.Assign(targets=[ast.Name(id=tmp, ctx=ast.Store())], value=subj))
+            subj = ast.Name(id=tmp, ctx=ast.Load())
         # the subject must not be rebound by the cases' own bindings before later tests (only in the body, which ends the match)
         arms: List[Tuple[Optional[ast.expr], List[ast.stmt]]] = []
         for case in node.cases:
@@ -704,6 +858,8 @@ class _Rewriter(ast.NodeTransformer):
                 return node         # the guard may read the captured names, which are bound before it is evaluated
             if case.guard is not None:
                 test = case.guard if test is None else ast.BoolOp(op=ast.And(), values=[test, case.guard])
+            if test is not None:
+                test = self.visit(_loc(test, node))
             body = [ast.Assign(targets=[ast.Name(id=nm, ctx=ast.Store())], value=val) for nm, val in binds] + list(case.body)
             arms.append((test, body))
         # build the if / elif chain from the last arm backwards
@@ -772,8 +928,67 @@ class _Rewriter(ast.NodeTransformer):
             out.append(mk(h.type, cur))
         return out
 
+    # RD: v = reduce(F, X, INIT)  ->  v = INIT; for e in X: v = F(v, e)
+    def _reduce_call(self, e: Optional[ast.expr]) -> Optional[ast.Call]:
+        if isinstance(e, ast.Call) and (dotted(e.func) or '') in ('functools.reduce', 'ft.reduce', 'reduce') and len(e.args) == 3 and not e.keywords \
+                and not any(isinstance(a, ast.Starred) for a in e.args):
+            F = e.args[0]
+            if _ref(F):
+                return e
+            if isinstance(F, ast.Lambda) and len(F.args.args) == 2 and not F.args.posonlyargs and not F.args.kwonlyargs and not F.args.vararg \
+                    and not F.args.kwarg and not F.args.defaults and not any(isinstance(x, (ast.Lambda, ast.NamedExpr)) for x in ast.walk(F.body)):
+                return e
+        return None
+
+    def _reduce_loop(self, call: ast.Call, acc: str, like: ast.AST) -> List[ast.stmt]:
+        self._fresh += 1
+        ev = f'_item{self._fresh}'
+        init = ast.Assign(targets=[ast.Name(id=acc, ctx=ast.Store())], value=call.args[2])
+        F = call.args[0]
+        if isinstance(F, ast.Lambda):
+            pa, pb = F.args.args[0].arg, F.args.args[1].arg
+
+            class _S(ast.NodeTransformer):
+                def visit_Name(self_, n: ast.Name) -> ast.AST:     # noqa: N805
+                    if isinstance(n.ctx, ast.Load) and n.id == pa:
+                        return ast.Name(id=acc, ctx=ast.Load())
+                    if isinstance(n.ctx, ast.Load) and n.id == pb:
+                        return ast.Name(id=ev, ctx=ast.Load())
+                    return n
+            step_val: ast.expr = _S().visit(copy.deepcopy(F.body))
+        else:
+            step_val = ast.Call(func=F, args=[ast.Name(id=acc, ctx=ast.Load()), ast.Name(id=ev, ctx=ast.Load())], keywords=[])
+        step = ast.Assign(targets=[ast.Name(id=acc, ctx=ast.Store())], value=step_val)
+        loop = ast.For(target=ast.Name(id=ev, ctx=ast.Store()), iter=call.args[1], body=[step], orelse=[])
+        return [_loc(init, like), _loc(loop, like)]
+
+    def visit_Return(self, node: ast.Return) -> ast.AST:
+        self.generic_visit(node)
+        rc = self._reduce_call(node.value)
+        if rc is not None:
+            self._fresh += 1
+            acc = f'_acc{self._fresh}'
+            self._hit('RD reduce', node)
+            return self._reduce_loop(rc, acc, node) + [_loc(ast.Return(value=ast.Name(id=acc, ctx=ast.Load())), node)]
+        return node
+
+    def visit_While(self, node: ast.While) -> ast.AST:
+        self.generic_visit(node)
+        # WN: while (x := next(IT, S)) is not S: BODY   (IT a local bound once to iter(X) and used nowhere else, S a sentinel name)
+        #     is handled in _sentinel_loops, which needs the enclosing block; here only the for-else rule
+        return self._for_else(node)
+
     def visit_Expr(self, node: ast.Expr) -> ast.AST:
         self.generic_visit(node)
+        # YF: `yield from X` as a statement -> `for v in X: yield v`   (same items in the same order; differs only for send()/throw()
+        #     into the delegating generator, which no caller in the package does)
+        if isinstance(node.value, ast.YieldFrom):
+            self._fresh += 1
+            v = f'_item{self._fresh}'
+            self._hit('YF yield-from', node)
+            loop = ast.For(target=ast.Name(id=v, ctx=ast.Store()), iter=node.value.value,
+                           body=[ast.Expr(value=ast.Yield(value=ast.Name(id=v, ctx=ast.Load())))], orelse=[])
+            return _loc(loop, node)
         if isinstance(node.value, ast.IfExp):
             self._hit('X expr-ifexp', node)
             e = node.value
@@ -1070,6 +1285,81 @@ def _propagate_aliases(fn: ast.AST) -> int:
     return n_changed
 
 
+def _sentinel_loops(fn: ast.AST, module_sentinels: Set[str]) -> int:
+    """WN:  it = iter(X) ... while (x := next(it, S)) is not S: BODY [else: E]   ->   for x in X: BODY [else: E]
+    S is a sentinel: a name bound once to `object()` (module level or local, possibly through one local alias), so no element can be
+    it; `it` is assigned once and read only by that next(); x is not read outside the loop."""
+    if not isinstance(getattr(fn, 'body', None), list):
+        return 0
+    stores: Dict[str, List[ast.AST]] = {}
+    loads: Dict[str, List[ast.Name]] = {}
+    assigns: Dict[str, List[ast.Assign]] = {}
+    for x in ast.walk(fn):
+        if isinstance(x, ast.Name):
+            (loads if isinstance(x.ctx, ast.Load) else stores).setdefault(x.id, []).append(x)
+        elif isinstance(x, ast.Assign) and len(x.targets) == 1 and isinstance(x.targets[0], ast.Name):
+            assigns.setdefault(x.targets[0].id, []).append(x)
+
+    def is_sentinel(nm: str, depth: int = 0) -> bool:
+        if nm in module_sentinels and nm not in stores:
+            return True
+        a = assigns.get(nm, [])
+        if len(a) == 1 and len(stores.get(nm, [])) == 1 and depth < 2:
+            v = a[0].value
+            if isinstance(v, ast.Call) and dotted(v.func) == 'object' and not v.args and not v.keywords:
+                return True
+            if isinstance(v, ast.Name):
+                return is_sentinel(v.id, depth + 1)
+        return False
+    n_changed = 0
+
+    def block(stmts: List[ast.stmt]) -> None:
+        nonlocal n_changed
+        for i, st in enumerate(list(stmts)):
+            if isinstance(st, ast.While) and isinstance(st.test, ast.Compare) and len(st.test.ops) == 1 and isinstance(st.test.ops[0], ast.IsNot) \
+                    and isinstance(st.test.left, ast.NamedExpr) and isinstance(st.test.comparators[0], ast.Name):
+                ne = st.test.left
+                S = st.test.comparators[0].id
+                call = ne.value
+                if isinstance(call, ast.Call) and dotted(call.func) == 'next' and len(call.args) == 2 and not call.keywords and \
+                        isinstance(call.args[0], ast.Name) and isinstance(call.args[1], ast.Name) and call.args[1].id == S and is_sentinel(S):
+                    itn = call.args[0].id
+                    xv = ne.target.id
+                    ia = assigns.get(itn, [])
+                    inside = {id(y) for y in ast.walk(st)}
+                    if len(ia) == 1 and len(stores.get(itn, [])) == 1 and len(loads.get(itn, [])) == 1 and \
+                            isinstance(ia[0].value, ast.Call) and dotted(ia[0].value.func) == 'iter' and len(ia[0].value.args) == 1 and \
+                            ia[0] in stmts and stmts.index(ia[0]) < stmts.index(st) and \
+                            all(id(r) in inside for r in loads.get(xv, [])) and all(id(w) in inside for w in stores.get(xv, [])):
+                        loop = ast.For(target=ast.Name(id=xv, ctx=ast.Store()), iter=ia[0].value.args[0], body=st.body, orelse=st.orelse)
+                        stmts[stmts.index(st)] = _loc(loop, st)
+                        stmts.remove(ia[0])
+                        n_changed += 1
+                        st = loop
+            cur_st = st
+            # LU: for v in X: a, b = v; REST   (v read nowhere else)  ->  for a, b in X: REST
+            if isinstance(cur_st, (ast.For, ast.AsyncFor)) and isinstance(cur_st.target, ast.Name) and cur_st.body and \
+                    isinstance(cur_st.body[0], ast.Assign) and len(cur_st.body[0].targets) == 1 and \
+                    isinstance(cur_st.body[0].targets[0], (ast.Tuple, ast.List)) and isinstance(cur_st.body[0].value, ast.Name) and \
+                    cur_st.body[0].value.id == cur_st.target.id and len(cur_st.body) > 1:
+                v = cur_st.target.id
+                all_loads = [y for y in ast.walk(fn) if isinstance(y, ast.Name) and y.id == v and isinstance(y.ctx, ast.Load)]
+                all_stores = [y for y in ast.walk(fn) if isinstance(y, ast.Name) and y.id == v and isinstance(y.ctx, ast.Store)]
+                if len(all_loads) == 1 and len(all_stores) == 1:
+                    cur_st.target = cur_st.body[0].targets[0]
+                    del cur_st.body[0]
+                    n_changed += 1
+            st = cur_st
+            for fld in ('body', 'orelse', 'finalbody'):
+                sub = getattr(st, fld, None)
+                if isinstance(sub, list) and sub and isinstance(sub[0], ast.stmt) and not isinstance(st, (ast.FunctionDef, ast.AsyncFunctionDef, ast.ClassDef)):
+                    block(sub)
+            for h in getattr(st, 'handlers', []) or []:
+                block(h.body)
+    block(fn.body)      # type: ignore[attr-defined]
+    return n_changed
+
+
 _PURE_BUILTINS = ('isinstance', 'issubclass', 'callable')
 
 
@@ -1203,7 +1493,8 @@ def _triggers(tree: ast.Module) -> bool:
                                                  f.attr == 'get' and isinstance(f.value, ast.Dict)):
                 return True
             d = dotted(f)
-            if d in ('getattr', 'filterfalse') or d == 'dict' and len(x.args) == 1 and isinstance(x.args[0], ast.Call) or d in ('tuple', 'list') and len(x.args) == 1 and isinstance(x.args[0], (ast.Call, ast.GeneratorExp, ast.ListComp, ast.Tuple)) or _opname(f) is not None and _opname(f) not in ('attrgetter', 'itemgetter', 'methodcaller'):
+            if d in ('getattr', 'filterfalse', 'functools.reduce', 'ft.reduce', 'reduce') or d == 'map' and len(x.args) >= 2 and (len(x.args) > 2 or isinstance(x.args[0], ast.Call)) or \
+                    d in ('isinstance', 'issubclass') and len(x.args) == 2 and isinstance(x.args[1], ast.BinOp) or d == 'dict' and len(x.args) == 1 and isinstance(x.args[0], ast.Call) or d in ('tuple', 'list') and len(x.args) == 1 and isinstance(x.args[0], (ast.Call, ast.GeneratorExp, ast.ListComp, ast.Tuple)) or _opname(f) is not None and _opname(f) not in ('attrgetter', 'itemgetter', 'methodcaller'):
                 return True
             if d in ('next', 'any', 'all') and x.args and isinstance(x.args[0], (ast.GeneratorExp, ast.ListComp)) and \
                     isinstance(x.args[0].generators[0].iter, (ast.Tuple, ast.List)):
@@ -1227,7 +1518,13 @@ def _triggers(tree: ast.Module) -> bool:
             return True
         elif isinstance(x, ast.ClassDef) and any(dotted(b) in ('NamedTuple', 'typing.NamedTuple') for b in x.bases):
             return True
-        elif isinstance(x, ast.Match):
+        elif isinstance(x, (ast.Match, ast.YieldFrom)):
+            return True
+        elif isinstance(x, ast.While) and isinstance(x.test, ast.Compare) and isinstance(x.test.left, ast.NamedExpr):
+            return True
+        elif isinstance(x, ast.BinOp) and isinstance(x.op, ast.BitOr) and (isinstance(x.left, ast.Dict) or isinstance(x.right, ast.Dict)):
+            return True
+        elif isinstance(x, ast.AugAssign) and isinstance(x.op, ast.BitOr):
             return True
         elif isinstance(x, ast.Assign) and len(x.targets) == 1 and isinstance(x.targets[0], ast.Name) and \
                 (isinstance(x.value, ast.Attribute) and _ref(x.value) or isinstance(x.value, (ast.IfExp, ast.Constant))):
@@ -1352,6 +1649,12 @@ def canonical(prog: Program, known_globals: Optional[Set[str]] = None) -> Progra
             continue
         tree = copy.deepcopy(m.tree)
         n = 0
+        mod_sentinels = {(st.targets[0] if isinstance(st, ast.Assign) else st.target).id for st in tree.body
+                         if (isinstance(st, ast.Assign) and len(st.targets) == 1 and isinstance(st.targets[0], ast.Name) or
+                             isinstance(st, ast.AnnAssign) and isinstance(st.target, ast.Name))
+                         and isinstance(st.value, ast.Call) and dotted(st.value.func) == 'object'
+                         and not st.value.args and not st.value.keywords}
+        mod_sentinels = {nm for nm in mod_sentinels if len(_module_level_bindings(tree).get(nm, [])) == 1}
         if consts or cconsts:
             cs = _ConstSubst(consts, cconsts)
             cs.visit(tree)
@@ -1363,6 +1666,7 @@ def canonical(prog: Program, known_globals: Optional[Set[str]] = None) -> Progra
             for fn in [x for x in ast.walk(tree) if isinstance(x, (ast.FunctionDef, ast.AsyncFunctionDef))]:
                 k += _propagate_aliases(fn)
                 k += _forward_subst(fn)
+                k += _sentinel_loops(fn, mod_sentinels)
             rw = _Rewriter(_namedtuples(tree))
             rw.visit(tree)
             if rw.changed:
